@@ -322,7 +322,8 @@ open Hc.PlainFraming in
     connection without a cryptographer frames the requests it receives itself (F19) and refuses what it cannot frame. Every
     such refusal is ANSWERED — the request's header does not parse, gives no length (chunked coding: a well-formed request),
     or does not end — with one exception, for every parser `cl`, header limit, state and byte: bytes that arrive behind a
-    complete request before its response was written, which are refused without a word (they are the adversary's: C05). -/
+    complete request before its response was written, which are refused without a word. (The bytes are the adversary's — C05 —,
+    but the complete request in front of them then goes unanswered too: recorded as the known finding F69.) -/
 theorem plaintext_refusal_answered_unless_excess (cl : Bytes → Option Nat) (maxHeader : Nat) (s : St) (x : UInt8)
     (h : byte cl maxHeader s x = none) : answered s = !s.complete := by
   unfold byte at h
